@@ -7,4 +7,15 @@ def expectedC12 : List (String × String) := [("lits:stats.BandwidthScott", "0.2
 /-- the constants and literals the C12 model mirrors are still what the source says -/
 theorem facts_C12 : holdsAll expectedC12 = true := by decide
 
+
+/-- State that outlives a call, as extracted from the source on this run: the package-level
+variables of the packages this property's code lives in, the functions (other than `init`) that
+assign to them or call methods on them, and the fields of the property's struct types. The model is
+a pure function of the arguments and of these fields; a new variable, writer or field is state the
+model does not know of. -/
+def stateC12 : List (String × String) := [("globals:stats", "ErrMismatchedSamples ErrSampleSize ErrSamplesEqual ErrZeroVariance MannWhitneyExactLimit MannWhitneyTiesExactLimit StdNormal _KDEBoundaryMethod_index _KDEKernel_index _LocationHypothesis_index inf nan quantileCIApproxThreshold"), ("globalwrites:stats", "MannWhitneyUTest:StdNormal.CDF"), ("fields:stats.KDE", "Sample:Sample Kernel:KDEKernel Bandwidth:float64 BoundaryMethod:KDEBoundaryMethod BoundaryMin:float64 BoundaryMax:float64"), ("fields:stats.epanechnikovKernel", "h:float64"), ("fields:stats.Sample", "Xs:[]float64 Weights:[]float64 Sorted:bool")]
+
+/-- the source has exactly the package-level variables, writers and struct fields the model accounts for -/
+theorem state_C12 : holdsAll stateC12 = true := by decide +kernel
+
 end MV.Facts
